@@ -311,8 +311,8 @@ var abstractTypes = map[string][]struct {
 	"sync.Once":       {{"done", SBool}},
 	"sync.WaitGroup":  {},
 	"sync.Pool":       {},
-	"os.File":         {{"path", SString}},
-	"bufio.Reader":    {},
+	"os.File":         {{"path", SString}, {"pos", SString}},
+	"bufio.Reader":    {{"src", SString}},
 	"bufio.Writer":    {{"path", SString}, {"buffered", SString}},
 	"bufio.Scanner":   {},
 	"regexp.Regexp":   {{"pattern", SString}},
